@@ -41,31 +41,31 @@ func runC05(c *eng.Ctx, thorough bool) {
 		succ := eng.SuccessReturns(f, 2)
 		c.Clause("R2", "C05.1")
 		if c.Floor(f, "success returns", len(succ), 1) {
-			c.Cut(f, "TTL returned", succ, eng.G(f, `^0 < φmaxTTL\{.*\}$`, true), nil)
+			c.Cut(f, "TTL returned", succ, c18G(f, `^0 < φmaxTTL\{.*\}$`, true), nil)
 		}
 		// effective max selection
 		c.Clause("R5", "C05.1")
 		for _, e := range eng.PhiEdges(f, "maxTTL", func(v ssa.Value) bool { p, ok := v.(*ssa.Parameter); return ok && eng.VarName(p) == "backendMaxTTL" }) {
-			c.CutEdges(f, "maxTTL = backendMaxTTL", []eng.Edge{e}, eng.G(f, `^backendMaxTTL < `, true))
-			c.CutEdges(f, "maxTTL = backendMaxTTL", []eng.Edge{e}, eng.G(f, `^0 < backendMaxTTL$`, true))
+			c.CutEdges(f, "maxTTL = backendMaxTTL", []eng.Edge{e}, c18G(f, `^backendMaxTTL < `, true))
+			c.CutEdges(f, "maxTTL = backendMaxTTL", []eng.Edge{e}, c18G(f, `^0 < backendMaxTTL$`, true))
 		}
 		for _, e := range eng.PhiEdges(f, "maxTTL", func(v ssa.Value) bool { p, ok := v.(*ssa.Parameter); return ok && eng.VarName(p) == "explicitMaxTTL" }) {
-			c.CutEdges(f, "maxTTL = explicitMaxTTL", []eng.Edge{e}, eng.G(f, `^explicitMaxTTL < `, true))
-			c.CutEdges(f, "maxTTL = explicitMaxTTL", []eng.Edge{e}, eng.G(f, `^0 < explicitMaxTTL$`, true))
+			c.CutEdges(f, "maxTTL = explicitMaxTTL", []eng.Edge{e}, c18G(f, `^explicitMaxTTL < `, true))
+			c.CutEdges(f, "maxTTL = explicitMaxTTL", []eng.Edge{e}, c18G(f, `^0 < explicitMaxTTL$`, true))
 		}
 		if len(eng.PhiEdges(f, "maxTTL", func(v ssa.Value) bool { _, ok := v.(*ssa.Parameter); return ok })) < 2 {
 			c.Violation(f, "effective max selection", f.Pos(), "the effective maximum no longer takes both the backend maximum and the explicit maximum into account", nil)
 		} else {
 			c.OK(f, "effective max selection", f.Pos(), "maxTTL ∈ {sysView.MaxLeaseTTL(), backendMaxTTL, explicitMaxTTL}")
 		}
-		if len(eng.Calls(f, `<logical\.SystemView>\.MaxLeaseTTL$`)) == 0 {
+		if len(c05Calls(f, `<logical\.SystemView>\.MaxLeaseTTL$`)) == 0 {
 			c.Violation(f, "mount maximum consulted", f.Pos(), "CalculateTTL no longer consults the mount/system maximum", nil)
 		}
 		// hard stop
 		c.Clause("R3", "C05.1")
 		var addExplicit, addMax []ssa.Instruction
-		for _, a := range eng.Calls(f, `^time\.\(Time\)\.Add$`) {
-			arg := eng.Expr(a.Common().Args[1])
+		for _, a := range c05Calls(f, `^time\.\(Time\)\.Add$`) {
+			arg := eng.Expr(c05Args(a)[1])
 			switch {
 			case arg == "explicitMaxTTL":
 				addExplicit = append(addExplicit, a)
@@ -83,8 +83,8 @@ func runC05(c *eng.Ctx, thorough bool) {
 			isZeroStart := eng.GD(f, `^time\.\(Time\)\.IsZero\(startTime\)$`, true)
 			for _, hs := range hardStops {
 				a := hs.(ssa.CallInstruction)
-				site := "hard stop counted from the issue time: base of .Add(" + eng.Expr(a.Common().Args[1]) + ")"
-				leaves, nowEdges := timeLeaves(a.Common().Args[0])
+				site := "hard stop counted from the issue time: base of .Add(" + eng.Expr(c05Args(a)[1]) + ")"
+				leaves, nowEdges := timeLeaves(c05Args(a)[0])
 				hasParam := false
 				bad := ""
 				for _, l := range leaves {
@@ -105,13 +105,13 @@ func runC05(c *eng.Ctx, thorough bool) {
 				}
 				switch {
 				case !hasParam:
-					c.Violation(f, site, a.Pos(), "the caller's issue time (parameter startTime) is not among the values the hard stop is computed from ("+eng.ExprDeep(a.Common().Args[0])+"): the hard stop moves with every renewal", nil)
+					c.Violation(f, site, a.Pos(), "the caller's issue time (parameter startTime) is not among the values the hard stop is computed from ("+eng.ExprDeep(c05Args(a)[0])+"): the hard stop moves with every renewal", nil)
 				case bad != "":
 					c.Violation(f, site, a.Pos(), "the hard stop may be computed from "+bad+", neither the caller's issue time nor the current time", nil)
 				default:
-					c.OK(f, site, a.Pos(), "base is read out of param startTime (or time.Now() when absent): "+eng.ExprDeep(a.Common().Args[0]))
+					c.OK(f, site, a.Pos(), "base is read out of param startTime (or time.Now() when absent): "+eng.ExprDeep(c05Args(a)[0]))
 					if len(nowEdges) > 0 {
-						c.CutEdges(f, "issue time defaults to now ("+eng.Expr(a.Common().Args[1])+")", nowEdges, isZeroStart)
+						c.CutEdges(f, "issue time defaults to now ("+eng.Expr(c05Args(a)[1])+")", nowEdges, isZeroStart)
 					}
 				}
 			}
@@ -136,7 +136,7 @@ func runC05(c *eng.Ctx, thorough bool) {
 		if len(pc) == 0 {
 			c.Violation(f, "period capped by the effective max", f.Pos(), "a period larger than the effective maximum is no longer capped", nil)
 		} else {
-			c.CutEdges(f, "period = maxTTL", pc, eng.G(f, `^φmaxTTL\{.*\} < period$`, true))
+			c.CutEdges(f, "period = maxTTL", pc, c18G(f, `^φmaxTTL\{.*\} < period$`, true))
 		}
 	}
 
@@ -157,22 +157,22 @@ func runC05(c *eng.Ctx, thorough bool) {
 			continue
 		}
 		c.Clause("R5", "C05.2")
-		for _, ct := range eng.Calls(f, `framework\.CalculateTTL$`) {
-			a := ct.Common().Args
-			c.Prov(f, "issue time given to CalculateTTL on renewal", ct, a[6], `^field:vault\.\(\*ExpirationManager\)\.loadEntry\(\)#0\.IssueTime$`)
-			c.Prov(f, "increment given to CalculateTTL", ct, a[1], `^param:increment$`)
+		for _, ct := range c05Calls(f, `framework\.CalculateTTL$`) {
+			a := c05Args(ct)
+			c05Prov(c, f, "issue time given to CalculateTTL on renewal", ct, a[6], `^field:vault\.\(\*ExpirationManager\)\.loadEntry\(\)#0\.IssueTime$`)
+			c05Prov(c, f, "increment given to CalculateTTL", ct, a[1], `^param:increment$`)
 		}
-		c.Floor(f, "CalculateTTL call", len(eng.Calls(f, `framework\.CalculateTTL$`)), 1)
+		c.Floor(f, "CalculateTTL call", len(c05Calls(f, `framework\.CalculateTTL$`)), 1)
 		// the TTL written into the response is CalculateTTL's result
 		n := 0
 		for _, st := range eng.Stores(f, `\.(Secret|Auth)\.(LeaseOptions\.)?TTL$`) {
 			n++
-			if ok, _, _ := eng.OriginsMatch(st.Val, `^call:time\.\(Time\)\.Sub$`); ok {
+			if ok, _, _ := c18OriginsMatch(st.Val, nil, `^call:time\.\(Time\)\.Sub$`); ok {
 				// batch-token clamp: recomputed from the clamped expiry, only behind "expires after the token"
-				c.Cut(f, "TTL recomputed from the batch token's expiry", []ssa.Instruction{st}, eng.G(f, `^time\.\(Time\)\.After\(\)$`, true), nil)
+				c.Cut(f, "TTL recomputed from the batch token's expiry", []ssa.Instruction{st}, c18G(f, `^time\.\(Time\)\.After\(\)$`, true), nil)
 				continue
 			}
-			c.Prov(f, "TTL granted on renewal", st, st.Val, `^call:framework\.CalculateTTL#0$`)
+			c05Prov(c, f, "TTL granted on renewal", st, st.Val, `^call:framework\.CalculateTTL#0$`)
 		}
 		c.Floor(f, "TTL store", n, 1)
 		// the stored expiry is computed after the TTL was set, from the same response
@@ -181,18 +181,18 @@ func runC05(c *eng.Ctx, thorough bool) {
 		for _, st := range eng.Stores(f, `\.(Secret|Auth)\.(LeaseOptions\.)?TTL$`) {
 			ttlSt = append(ttlSt, st)
 		}
-		exp := instrsOf(eng.Calls(f, `ExpirationTime$`))
+		exp := instrsOf(c05Calls(f, `ExpirationTime$`))
 		c.Before(f, "resp TTL = CalculateTTL result", ttlSt, "ExpirationTime() for the stored lease", exp)
 		// C05.3 gate
 		c.Clause("R2", "C05.3")
-		backend := instrsOf(eng.Calls(f, `vault\.\(\*ExpirationManager\)\.renew(Auth)?Entry$`))
+		backend := instrsOf(c05Calls(f, `vault\.\(\*ExpirationManager\)\.renew(Auth)?Entry$`))
 		if c.Floor(f, "backend renew call", len(backend), 1) {
 			g := eng.Guard{Desc: "nil-error edge of leaseEntry.renewable"}
 			// the call is selected by its resolved callee: written le.renewable()
 			// or through the method value (check := le.renewable; check())
 			gate, viaValue := c05CallsOf(f, c.P.Func("vault.(*leaseEntry).renewable"))
 			for _, r := range gate {
-				g.Edges = append(g.Edges, eng.CallOKEdges(r)...)
+				g.Edges = append(g.Edges, c05OKEdges(r)...)
 				g.Pass = append(g.Pass, r)
 			}
 			if len(gate) == 0 && viaValue {
@@ -201,12 +201,12 @@ func runC05(c *eng.Ctx, thorough bool) {
 			} else {
 				c.Cut(f, "backend renew", backend, g, nil)
 			}
-			c.Cut(f, "backend renew", backend, eng.GCallOK(f, `vault\.\(\*ExpirationManager\)\.loadEntry$`), nil)
+			c.Cut(f, "backend renew", backend, c18GCallOK(f, `vault\.\(\*ExpirationManager\)\.loadEntry$`), nil)
 		}
 		// persisted => tracked (C05.4) for the renew functions
 		c.Clause("R3", "C05.4")
-		for _, p := range eng.Calls(f, `vault\.\(\*ExpirationManager\)\.persistEntry$`) {
-			c.CleanupOnEdges(f, "persistEntry succeeded", eng.CallOKEdges(p), "updatePending", instrsOf(eng.Calls(f, `vault\.\(\*ExpirationManager\)\.updatePending$`)))
+		for _, p := range c05Calls(f, `vault\.\(\*ExpirationManager\)\.persistEntry$`) {
+			c.CleanupOnEdges(f, "persistEntry succeeded", c05OKEdges(p), "updatePending", instrsOf(c05Calls(f, `vault\.\(\*ExpirationManager\)\.updatePending$`)))
 		}
 	}
 	// writers of leaseEntry.ExpireTime
@@ -231,10 +231,44 @@ func runC05(c *eng.Ctx, thorough bool) {
 			n := eng.FuncName(eng.TopFunc(w.Fn))
 			pats, ok := allowed[n]
 			if !ok {
-				c.Violation(eng.TopFunc(w.Fn), "writer{leaseEntry.ExpireTime}", w.Store.Pos(), "a lease expiry is set outside the reviewed writer table: "+eng.InstrStr(w.Store), nil)
+				// an unexported function all of whose callers are tabled writers is a piece of
+				// those writers (a block extracted into a helper): it may write what they may
+				wf := eng.TopFunc(w.Fn)
+				var from []string
+				helper := wf.Object() != nil && !wf.Object().Exported() && len(wf.Blocks) > 0
+				if helper {
+					m, _ := c.P.StaticCallee(n)
+					sites := c.P.FindCalls(m, nil)
+					helper = len(sites) > 0
+					seen := map[string]bool{}
+					for _, s := range sites {
+						cn := eng.FuncName(eng.TopFunc(s.Fn))
+						cp, tabled := allowed[cn]
+						if !tabled {
+							helper = false
+							break
+						}
+						if !seen[cn] {
+							seen[cn] = true
+							from = append(from, cn)
+							pats = append(pats, cp...)
+						}
+					}
+				}
+				if !helper {
+					c.Violation(wf, "writer{leaseEntry.ExpireTime}", w.Store.Pos(), "a lease expiry is set outside the reviewed writer table: "+eng.InstrStr(w.Store), nil)
+					continue
+				}
+				c05Prov(c, wf, "lease expiry written in "+n+" (called only by "+strings.Join(from, ", ")+")", w.Store, w.Store.Val, pats...)
+				// the batch-token clamp, when it is what moved: only shortens
+				if strings.HasSuffix(eng.Expr(w.Store.Val), ".ExpireTime") {
+					c.Clause("R2", "C05.2")
+					c.Cut(wf, "clamp to the batch token's expiry", []ssa.Instruction{w.Store}, c18G(wf, `^time\.\(Time\)\.After\(\)$`, true), nil)
+					c.Clause("R6", "C05.2")
+				}
 				continue
 			}
-			c.Prov(eng.TopFunc(w.Fn), "lease expiry written in "+n, w.Store, w.Store.Val, pats...)
+			c05Prov(c, eng.TopFunc(w.Fn), "lease expiry written in "+n, w.Store, w.Store.Val, pats...)
 		}
 	} else {
 		c.Unresolved("vault.leaseEntry.ExpireTime")
@@ -248,7 +282,7 @@ func runC05(c *eng.Ctx, thorough bool) {
 		c.Clause("R2", "C05.2")
 		for _, st := range eng.Stores(f, `\.ExpireTime$`) {
 			if strings.HasSuffix(eng.Expr(st.Val), ".ExpireTime") {
-				c.Cut(f, "clamp to the batch token's expiry", []ssa.Instruction{st}, eng.G(f, `^time\.\(Time\)\.After\(\)$`, true), nil)
+				c.Cut(f, "clamp to the batch token's expiry", []ssa.Instruction{st}, c18G(f, `^time\.\(Time\)\.After\(\)$`, true), nil)
 			}
 		}
 	}
@@ -258,13 +292,13 @@ func runC05(c *eng.Ctx, thorough bool) {
 		c.Clause("R2", "C05.3")
 		succ := eng.SuccessReturns(f, 1)
 		if c.Floor(f, "nil-error returns", len(succ), 1) {
-			c.Cut(f, "nil error", succ, eng.G(f, `^le == nil$`, false), nil)
-			c.Cut(f, "nil error", succ, eng.G(f, `^vault\.\(\*leaseEntry\)\.isIrrevocable\(\)$`, false), nil)
-			c.Cut(f, "nil error", succ, eng.G(f, `^time\.\(Time\)\.IsZero\(\)$`, false), nil)
-			c.Cut(f, "nil-error return crosses the expiry refusal", succ, eng.G(f, `^time\.\(Time\)\.Before\(\)$`, false), nil)
+			c.Cut(f, "nil error", succ, c18G(f, `^le == nil$`, false), nil)
+			c.Cut(f, "nil error", succ, c18G(f, `^vault\.\(\*leaseEntry\)\.isIrrevocable\(\)$`, false), nil)
+			c.Cut(f, "nil error", succ, c18G(f, `^time\.\(Time\)\.IsZero\(\)$`, false), nil)
+			c.Cut(f, "nil-error return crosses the expiry refusal", succ, c18G(f, `^time\.\(Time\)\.Before\(\)$`, false), nil)
 			// non-renewable refusal (A3: bypassed by the batch arm)
-			c.Cut(f, "nil-error return crosses the non-renewable refusal (secret)", succ, eng.Or(eng.G(f, `^le\.Secret == nil$`, true), eng.G(f, `^le\.Secret\.LeaseOptions\.Renewable$`, true)), nil)
-			c.Cut(f, "nil-error return crosses the non-renewable refusal (auth)", succ, eng.Or(eng.G(f, `^le\.Auth == nil$`, true), eng.G(f, `^le\.Auth\.LeaseOptions\.Renewable$`, true)), nil)
+			c.Cut(f, "nil-error return crosses the non-renewable refusal (secret)", succ, eng.Or(c18G(f, `^le\.Secret == nil$`, true), c18G(f, `^le\.Secret\.LeaseOptions\.Renewable$`, true)), nil)
+			c.Cut(f, "nil-error return crosses the non-renewable refusal (auth)", succ, eng.Or(c18G(f, `^le\.Auth == nil$`, true), c18G(f, `^le\.Auth\.LeaseOptions\.Renewable$`, true)), nil)
 			// the same two refusals for a lease that is NOT under a batch token
 			// (the batch arm is the known finding A3; assuming it away keeps the
 			// refusal for ordinary leases decided on its own)
@@ -277,15 +311,15 @@ func runC05(c *eng.Ctx, thorough bool) {
 					// no batch arm: the unconditional rules above already speak about every lease
 					c.OK(f, "batch arm of renewable()", f.Pos(), "renewable() has no batch-token arm; the non-renewable refusals above cover every lease")
 				} else {
-					c.Cut(f, "non-batch lease: nil-error return crosses the non-renewable refusal (secret)", succ, eng.Or(eng.G(f, `^le\.Secret == nil$`, true), eng.G(f, `^le\.Secret\.LeaseOptions\.Renewable$`, true)), notBatch)
-					c.Cut(f, "non-batch lease: nil-error return crosses the non-renewable refusal (auth)", succ, eng.Or(eng.G(f, `^le\.Auth == nil$`, true), eng.G(f, `^le\.Auth\.LeaseOptions\.Renewable$`, true)), notBatch)
+					c.Cut(f, "non-batch lease: nil-error return crosses the non-renewable refusal (secret)", succ, eng.Or(c18G(f, `^le\.Secret == nil$`, true), c18G(f, `^le\.Secret\.LeaseOptions\.Renewable$`, true)), notBatch)
+					c.Cut(f, "non-batch lease: nil-error return crosses the non-renewable refusal (auth)", succ, eng.Or(c18G(f, `^le\.Auth == nil$`, true), c18G(f, `^le\.Auth\.LeaseOptions\.Renewable$`, true)), notBatch)
 				}
 			}
 		}
 		c.Clause("R5", "C05.3")
-		for _, b := range eng.Calls(f, `^time\.\(Time\)\.Before$`) {
-			c.Prov(f, "expiry compared", b, b.Common().Args[0], `^field:le\.ExpireTime$`)
-			c.Prov(f, "compared with now", b, b.Common().Args[1], `^call:time\.Now$`)
+		for _, b := range c05Calls(f, `^time\.\(Time\)\.Before$`) {
+			c05Prov(c, f, "expiry compared", b, c05Args(b)[0], `^field:le\.ExpireTime$`)
+			c05Prov(c, f, "compared with now", b, c05Args(b)[1], `^call:time\.Now$`)
 		}
 	}
 
@@ -313,7 +347,7 @@ func runC05(c *eng.Ctx, thorough bool) {
 			f := s.Fn
 			idx := f.Signature.Results().Len() - 1
 			succ := eng.SuccessReturns(f, idx)
-			up := instrsOf(eng.Calls(f, `vault\.\(\*ExpirationManager\)\.updatePending$`))
+			up := instrsOf(c05Calls(f, `vault\.\(\*ExpirationManager\)\.updatePending$`))
 			if h := eng.Reach(eng.Query{Fn: f, StartEdges: eng.CallOKEdgesDirect(s.Call), Barriers: up, Target: eng.IsTarget(succ)}); h != nil || len(eng.CallOKEdgesDirect(s.Call)) == 0 {
 				var w []string
 				if h != nil {
@@ -330,7 +364,7 @@ func runC05(c *eng.Ctx, thorough bool) {
 	rl, _ := c.P.StaticCallee("vault.(*ExpirationManager).CreateOrFetchRevocationLeaseByToken")
 	for _, s := range c.P.FindCalls(rl, nil) {
 		f := s.Fn
-		rev := instrsOf(eng.Calls(f, `vault\.\(\*ExpirationManager\)\.(Revoke|LazyRevoke|lazyRevokeInternal|revokeCommon)$`))
+		rev := instrsOf(c05Calls(f, `vault\.\(\*ExpirationManager\)\.(Revoke|LazyRevoke|lazyRevokeInternal|revokeCommon)$`))
 		// on the success edge the lease is revoked before any nil-error return
 		idx := f.Signature.Results().Len() - 1
 		var succ []ssa.Instruction
@@ -356,12 +390,12 @@ func runC05(c *eng.Ctx, thorough bool) {
 			}
 		}
 		var filed []ssa.Instruction
-		for _, cl := range eng.Calls(f, `^sync\.\(\*Map\)\.Store$`) {
+		for _, cl := range c05Calls(f, `^sync\.\(\*Map\)\.Store$`) {
 			filed = append(filed, cl)
 		}
 		if c.Floor(f, "filing into pending / nonexpiring / irrevocable", len(filed), 3) {
 			// every return passes a filing, or the lease is already tracked (existing timer reset), or le == nil / expire time zero handled
-			if h := eng.Reach(eng.Query{Fn: f, Barriers: append(filed, instrsOf(eng.Calls(f, `time\.\(\*Timer\)\.Reset$|\.Delete$`))...), Target: eng.IsTarget(rets)}); h != nil {
+			if h := eng.Reach(eng.Query{Fn: f, Barriers: append(filed, instrsOf(c05Calls(f, `time\.\(\*Timer\)\.Reset$|\.Delete$`))...), Target: eng.IsTarget(rets)}); h != nil {
 				c.Violation(f, "every lease is filed somewhere", h.Instr.Pos(), "updatePendingInternal can return without filing the lease into any of the tracking sets", h.Witness)
 			} else {
 				c.OK(f, "every lease is filed somewhere", f.Pos(), "every return passes a store into pending/nonexpiring/irrevocable (or resets an existing timer)")
@@ -373,10 +407,10 @@ func runC05(c *eng.Ctx, thorough bool) {
 	if f := c.Fn("vault.(*ExpirationManager).processRestore"); f != nil {
 		c.Clause("R2", "C05.5")
 		succ := eng.SuccessReturns(f, 0)
-		c.Cut(f, "lease restored", succ, eng.Or(eng.GCallOK(f, `vault\.\(\*ExpirationManager\)\.loadEntryInternal$`), eng.G(f, `restoreLoaded.*#1$`, true), eng.G(f, `sync\.\(\*Map\)\.Load\(\)#1$`, true)), nil)
+		c.Cut(f, "lease restored", succ, eng.Or(c18GCallOK(f, `vault\.\(\*ExpirationManager\)\.loadEntryInternal$`), c18G(f, `restoreLoaded.*#1$`, true), c18G(f, `sync\.\(\*Map\)\.Load\(\)#1$`, true)), nil)
 		c.Clause("R12", "C05.5")
-		for _, l := range eng.Calls(f, `vault\.\(\*ExpirationManager\)\.loadEntryInternal$`) {
-			a := l.Common().Args
+		for _, l := range c05Calls(f, `vault\.\(\*ExpirationManager\)\.loadEntryInternal$`) {
+			a := c05Args(l)
 			if eng.Expr(a[3]) == "true" || strings.HasSuffix(eng.Expr(a[3]), ".inRestoreMode()") {
 				c.OK(f, "const{loadEntryInternal(restoreMode=true)}", l.Pos(), "restore mode tracks the loaded lease")
 			} else {
@@ -386,9 +420,9 @@ func runC05(c *eng.Ctx, thorough bool) {
 	}
 	if f := c.Fn("vault.(*ExpirationManager).loadEntryInternal"); f != nil {
 		c.Clause("R2", "C05.5")
-		up := instrsOf(eng.Calls(f, `vault\.\(\*ExpirationManager\)\.updatePending(Internal)?$`))
+		up := instrsOf(c05Calls(f, `vault\.\(\*ExpirationManager\)\.updatePending(Internal)?$`))
 		if c.Floor(f, "updatePending in loadEntryInternal", len(up), 1) {
-			c.Cut(f, "track the restored lease", up, eng.G(f, `^restoreMode$`, true), nil)
+			c.Cut(f, "track the restored lease", up, c18G(f, `^restoreMode$`, true), nil)
 			c.Exception("vault.(*ExpirationManager).loadEntryInternal: m.useCache == false", "a node that does not process expirations (standby) tracks nothing; it re-restores when it becomes active")
 			// in restore mode a found lease is tracked unless already loaded
 			succ := eng.SuccessReturns(f, 1)
@@ -411,10 +445,10 @@ func runC05(c *eng.Ctx, thorough bool) {
 		c.Clause("R4", "C05.5")
 		var clears []ssa.Instruction
 		var clo *ssa.Function
-		for _, r := range eng.Calls(f, `^sync\.\(\*Map\)\.Range$`) {
-			if strings.HasSuffix(eng.Expr(r.Common().Args[0]), ".restoreLoaded") {
+		for _, r := range c05Calls(f, `^sync\.\(\*Map\)\.Range$`) {
+			if strings.HasSuffix(eng.Expr(c05Args(r)[0]), ".restoreLoaded") {
 				clears = append(clears, r)
-				if mc, ok := r.Common().Args[1].(*ssa.MakeClosure); ok {
+				if mc, ok := c05Args(r)[1].(*ssa.MakeClosure); ok {
 					clo, _ = mc.Fn.(*ssa.Function)
 				}
 			}
@@ -429,9 +463,9 @@ func runC05(c *eng.Ctx, thorough bool) {
 		}
 		if clo != nil {
 			c.Clause("R2", "C05.5")
-			dels := instrsOf(eng.Calls(clo, `^sync\.\(\*Map\)\.Delete$`))
+			dels := instrsOf(c05Calls(clo, `^sync\.\(\*Map\)\.Delete$`))
 			if c.Floor(clo, "restoreLoaded.Delete", len(dels), 1) {
-				c.Cut(clo, "restore marker deleted", dels, eng.G(clo, `MatchesID\(\)$`, true), nil)
+				c.Cut(clo, "restore marker deleted", dels, c18G(clo, `MatchesID\(\)$`, true), nil)
 				// and every matching key is deleted
 				if h := eng.Reach(eng.Query{Fn: clo, StartEdges: eng.CondEdges(clo, `MatchesID\(\)$`, true), Barriers: dels, Target: func(in ssa.Instruction) bool { _, ok := in.(*ssa.Return); return ok }}); h != nil {
 					c.Violation(clo, "every marker of the namespace is deleted", h.Instr.Pos(), "a key of the namespace can be left in restoreLoaded", h.Witness)
@@ -444,7 +478,7 @@ func runC05(c *eng.Ctx, thorough bool) {
 	for _, fn := range []string{"vault.(*ExpirationManager).Restore", "vault.(*ExpirationManager).restore"} {
 		if f := c.P.Func(fn); f != nil {
 			c.Clause("R3", "C05.5")
-			col := eng.Calls(f, `collectLeases$`)
+			col := c05Calls(f, `collectLeases$`)
 			if len(col) > 0 {
 				c.OK(f, "restore enumerates stored leases", col[0].Pos(), "collectLeases called")
 			}
@@ -463,10 +497,10 @@ func runC05(c *eng.Ctx, thorough bool) {
 	// ---------- C05.6 bounded retries then irrevocable
 	if f := c.Fn("vault.(*revocationJob).OnFailure"); f != nil {
 		c.Clause("R2", "C05.6")
-		requeue := instrsOf(eng.Calls(f, `time\.\(\*Timer\)\.Reset$`))
-		mark := instrsOf(eng.Calls(f, `vault\.\(\*ExpirationManager\)\.markLeaseIrrevocable$`))
+		requeue := instrsOf(c05Calls(f, `time\.\(\*Timer\)\.Reset$`))
+		mark := instrsOf(c05Calls(f, `vault\.\(\*ExpirationManager\)\.markLeaseIrrevocable$`))
 		if c.Floor(f, "re-queue (timer reset)", len(requeue), 1) && c.Floor(f, "markLeaseIrrevocable", len(mark), 1) {
-			c.Cut(f, "re-queue for another attempt", requeue, eng.G(f, `revokesAttempted.* < vault\.maxRevokeAttempts$|< 6$|revokesAttempted\) < `, true), nil)
+			c.Cut(f, "re-queue for another attempt", requeue, c18G(f, `revokesAttempted.* < vault\.maxRevokeAttempts$|< 6$|revokesAttempted\) < `, true), nil)
 			budget := eng.CondEdges(f, `revokesAttempted.* < vault\.maxRevokeAttempts$|< 6$|revokesAttempted\) < `, false)
 			if len(budget) > 0 {
 				if h := eng.Reach(eng.Query{Fn: f, StartEdges: budget, Target: eng.IsTarget(requeue)}); h != nil {
@@ -498,8 +532,8 @@ func runC05(c *eng.Ctx, thorough bool) {
 			budgetIfs := eng.EdgeIfs(eng.CondEdges(f, `revokesAttempted.* < vault\.maxRevokeAttempts$|< 6$|revokesAttempted\) < `, true))
 			c.Before(f, "revokesAttempted = revokesAttempted + k (k > 0)", incs, "retry budget test", budgetIfs)
 			var putBack []ssa.Instruction
-			for _, ms := range eng.Calls(f, `^sync\.\(\*Map\)\.Store$`) {
-				a := ms.Common().Args
+			for _, ms := range c05Calls(f, `^sync\.\(\*Map\)\.Store$`) {
+				a := c05Args(ms)
 				if !strings.HasSuffix(eng.Expr(a[0]), ".pending") {
 					continue
 				}
@@ -649,7 +683,7 @@ func c05HardStopTail(c *eng.Ctx, f *ssa.Function, succ []ssa.Instruction) {
 	switch host, call, n := c05TailHost(f, hasCap); {
 	case host == f:
 		capped := eng.PhiEdges(f, "ttl", isSub)
-		c.CutEdges(f, "ttl = maxValidTTL", capped, eng.G(f, cmpPat, true))
+		c.CutEdges(f, "ttl = maxValidTTL", capped, c18G(f, cmpPat, true))
 		// when a hard stop exists, success needs the comparison to have been made
 		cmp := eng.EdgeIfs(eng.CondEdges(f, cmpPat, true))
 		zero := eng.CondEdges(f, zeroPat, true)
@@ -706,7 +740,7 @@ func c05HardStopTail(c *eng.Ctx, f *ssa.Function, succ []ssa.Instruction) {
 		for p := range capPhis {
 			capped = append(capped, c05PhiInEdges(p.(*ssa.Phi), isSub)...)
 		}
-		c.CutEdges(host, "ttl = maxValidTTL", capped, eng.G(host, cmpPat, true))
+		c.CutEdges(host, "ttl = maxValidTTL", capped, c18G(host, cmpPat, true))
 		cmp := eng.EdgeIfs(eng.CondEdges(host, cmpPat, true))
 		site2 := "TTL compared with the remaining time whenever a hard stop exists"
 		if h := eng.Reach(eng.Query{Fn: host, Barriers: cmp, Blocked: eng.CondEdges(host, zeroPat, true), Target: eng.IsTarget(hsucc)}); h != nil {
